@@ -405,20 +405,29 @@ func checkC17(r *Run) {
 		r1.Lost("(*RetryClient).Handle", "not found")
 	} else {
 		param := h.Params[1]
-		var st *ssa.Store
+		var sts []*ssa.Store
+		isSt := map[ssa.Instruction]bool{}
 		for _, s := range storesToField(h, a.Handler) {
-			if s.Val == ssa.Value(param) {
-				st = s
+			if s.Val == ssa.Value(param) || c.Resolve(s.Val) == ssa.Value(param) {
+				sts = append(sts, s)
+				isSt[s] = true
 			}
 		}
-		if st == nil {
+		if len(sts) == 0 {
 			r1.Bad("(*RetryClient).Handle/store", h.Pos(), "Handle does not remember the handler")
-		} else if w, found := CanReach(h, nil, realExit, PathQ{BlockInstr: func(in ssa.Instruction) bool { return in == ssa.Instruction(st) }}); found {
+		} else if w, found := CanReach(h, nil, realExit, PathQ{BlockInstr: func(in ssa.Instruction) bool { return isSt[in] }}); found {
 			r1.Bad("(*RetryClient).Handle/store", w.Pos(), "a path through Handle returns without remembering the handler: the next connection (created by a reconnect) is given the old handler, or none")
-		} else if a.Mu != nil && !c.heldAt(h, st, h.Params[0], a.Mu, "w") {
-			r1.Bad("(*RetryClient).Handle/store", st.Pos(), "handler is stored outside c.mu")
+		} else if a.Mu != nil && func() bool {
+			for _, st := range sts {
+				if !c.heldAt(h, st, h.Params[0], a.Mu, "w") {
+					return true
+				}
+			}
+			return false
+		}() {
+			r1.Bad("(*RetryClient).Handle/store", sts[0].Pos(), "handler is stored outside c.mu")
 		} else {
-			r1.OK("(*RetryClient).Handle/store", st.Pos(), "c.handler = handler on every path, under c.mu")
+			r1.OK("(*RetryClient).Handle/store", sts[0].Pos(), "c.handler = handler on every path, under c.mu")
 		}
 		// forward
 		var fwd *ssa.Call
@@ -427,7 +436,7 @@ func checkC17(r *Run) {
 				fwd = k
 			}
 		})
-		if fwd == nil || fwd.Call.Args[1] != ssa.Value(param) {
+		if fwd == nil || (fwd.Call.Args[1] != ssa.Value(param) && c.Resolve(fwd.Call.Args[1]) != ssa.Value(param)) {
 			r1.Bad("(*RetryClient).Handle/forward", h.Pos(), "Handle does not forward the handler to the current connection")
 		} else {
 			// forwarded on the `cli != nil` edge, to the current cli, under mu
